@@ -193,15 +193,49 @@ def cases(tier, seed):
     for shape in [(3,), (2, 3), (2, 2, 3)]:
         out.append({"k": "shapefuncs", "s": list(shape)})
     out.append({"k": "division"})
+    for shape in [(3,), (2, 3), (2, 2, 3)]:
+        out.append({"k": "apply", "s": list(shape)})
     return out
+
+
+def run_apply(case, R):
+    """apply_along_axis / apply_over_axes with functions whose result is wider, narrower or of another kind than the input"""
+    shape = tuple(case["s"])
+    nd = len(shape)
+    funcs = [("sum", numpy.sum), ("mean", numpy.mean), ("max", numpy.max), ("reverse", lambda x: x[::-1]), ("x > 1", lambda x: x > 1), ("cumsum", numpy.cumsum),
+             ("x / 2", lambda x: x / 2), ("argmax", numpy.argmax), ("count > 0", lambda x: numpy.sum(x > 0)), ("x * 0.5", lambda x: x * 0.5),
+             ("std-free spread", lambda x: numpy.max(x) - numpy.min(x)), ("first two", lambda x: x[:2])]
+    for kind in ("i", "f", "?", "u1"):
+        for rot in (0, 1):
+            a = filled(shape, rot, kind)
+            p = const_poly(a)
+            R.state(("apply", shape, kind, rot))
+            tags = [f"ndim={nd}", f"kind={kind}", "apply"]
+            for (fl, fn), ax in itertools.product(funcs, range(-nd, nd)):
+                if kind == "?" and fl in ("x / 2", "std-free spread"):
+                    continue
+                for sp_, mod in (("numpoly", numpoly), ("numpy", numpy)):
+                    judge(R, "apply_along_axis", f"[{sp_}]({fl}, {ax}) on {a.tolist()}", lambda: mod.apply_along_axis(fn, ax, p), lambda: numpy.apply_along_axis(fn, ax, a), tags,
+                          strict_kind=fl in ("x > 1", "argmax", "count > 0"))
+            for fl, fn in (("sum", numpy.sum), ("mean", numpy.mean), ("max", numpy.max)):
+                for axes in [0, [0], list(range(nd)), [-1]]:
+                    for sp_, mod in (("numpoly", numpoly), ("numpy", numpy)):
+                        judge(R, "apply_over_axes", f"[{sp_}]({fl}, {axes}) on {a.tolist()}", lambda: mod.apply_over_axes(fn, p, axes), lambda: numpy.apply_over_axes(fn, a, axes), tags)
 
 
 def run_case(case, R):
     k = case["k"]
+    if k == "apply":
+        return run_apply(case, R)
     if k in ("reductions", "elementwise"):
         shape, rot, kind = tuple(case["s"]), case["rot"], case["kind"]
         a = filled(shape, rot, kind)
-        p = const_poly(a, variant="T" if len(shape) >= 2 and rot == 2 else "canon")
+        # constants are stored in every representation: terms unsorted, extra zero terms, unused names, views
+        reps = ["canon", "zeroterm+unsorted", "unusedname+unsorted", "zeroterm+view", "zeroterm+unsorted+T" if len(shape) >= 2 else "zeroterm+unsorted+rev" if shape else "zeroterm+unsorted"]
+        if kind == "nf":
+            # an explicit zero term times an infinite coefficient is nan (IEEE): no zero terms next to infinities
+            reps = ["canon", "unusedname+unsorted", "view"]
+        p = const_poly(a, variant="T" if len(shape) >= 2 and rot == 2 else reps[(rot + len(shape) + len(kind)) % len(reps)])
         nd = len(shape)
         tags = [f"ndim={nd}", f"kind={kind}"] + (["magnitudes"] if kind == "mag" else [])
         R.state((k, shape, rot, kind))
@@ -256,6 +290,21 @@ def run_case(case, R):
                 return
             b = filled(shape, (rot + 1) % 3, kind)
             q = const_poly(b, "q1")
+            # the constant as plain numbers again, as the exponent of a power, as the source of copyto
+            judge(R, "tonumpy", f"({a.tolist()})", lambda: numpoly.tonumpy(p), lambda: a, tags)
+            judge(R, "tonumpy", f"[method]({a.tolist()})", lambda: p.tonumpy(), lambda: a, tags)
+            if kind in ("i", "u1", "?"):
+                ex_ = numpy.abs(a).astype(int) % 4
+                pe = const_poly(ex_, variant=reps[(rot + 1) % len(reps)])
+                judge(R, "power", f"(3, constant polynomial {ex_.tolist()})", lambda: numpoly.power(3, pe), lambda: numpy.power(3, ex_), tags + ["polynomial_exponent"])
+                judge(R, "power", f"[numpy](b, constant polynomial {ex_.tolist()})", lambda: numpy.power(numpy.abs(b).astype(int) + 1, pe), lambda: numpy.power(numpy.abs(b).astype(int) + 1, ex_), tags + ["polynomial_exponent"])
+
+            def copied(spelling):
+                dst = numpy.zeros(a.shape, dtype=float if kind in ("i", "f", "u1", "i1", "f4", "?", "nf") else a.dtype)
+                (numpoly.copyto if spelling == "numpoly" else numpy.copyto)(dst, p)
+                return dst
+            if nd:
+                judge(R, "copyto", f"(ndarray, {a.tolist()})", lambda: copied("numpoly"), lambda: a.astype(float), tags)
             for fname in ("absolute", "negative", "positive", "square", "ceil", "floor", "rint", "isfinite"):
                 judge(R, fname, f"({a.tolist()})", lambda: getattr(numpoly, fname)(p), lambda: getattr(numpy, fname)(a), tags, strict_kind=fname in BOOL_FUNCS)
             x = a * 0.37 if kind == "f" else a
